@@ -49,6 +49,9 @@ const (
 	refMutDefaultClauseIgnored
 	refMutIterMaxOffByOne
 	refMutOrdinalTens
+	// not a self-test mutant: the hypothesis "~R ignores its prefix parameters (v still consumes)" used to
+	// name defect D5 by its cause
+	refMutRadixIgnored
 )
 
 // Ref is one configured reference renderer.
@@ -589,7 +592,7 @@ func (r *Ref) one(n *node, c *actx, out *[]byte) {
 		r.integer(n, ps, 0, base, c, out)
 	case 'R':
 		ps := r.evalParams(n, c)
-		if 0 < len(ps) {
+		if 0 < len(ps) && r.Mut != refMutRadixIgnored {
 			maxParams(n, ps, 5)
 			if !ps[0].set {
 				undef("~R with parameters but no radix")
